@@ -27,6 +27,7 @@ import (
 	"path/filepath"
 	"strconv"
 	"strings"
+	"syscall"
 	"time"
 
 	"github.com/risor-io/risor"
@@ -76,13 +77,48 @@ var denied = []string{"os", "exec", "http", "net", "ssh", "sql", "pgx", "aws", "
 	"filepath", "tablewriter", "gha", "image", "sched", "echarts", "cli", "isatty", "goquery", "template", "dns", "smtp"}
 
 func main() {
-	w := bufio.NewWriterSize(os.Stdout, 1<<16)
+	// private copies of the two descriptors of the line protocol: a script that runs under the real OS and touches
+	// os.stdout / os.stdin makes risor close these files of the PROCESS when its context ends
+	stdin, stdout := os.Stdin, os.Stdout
+	if fd, err := syscall.Dup(0); err == nil {
+		stdin = os.NewFile(uintptr(fd), "protocol-in")
+	}
+	if fd, err := syscall.Dup(1); err == nil {
+		stdout = os.NewFile(uintptr(fd), "protocol-out")
+	}
+	w := bufio.NewWriterSize(stdout, 1<<16)
 	defer w.Flush()
-	sc := bufio.NewScanner(os.Stdin)
+	sc := bufio.NewScanner(stdin)
 	sc.Buffer(make([]byte, 1<<22), 1<<26)
 	n := 0
 	for sc.Scan() {
 		text := sc.Text()
+		if text == "?globals" {
+			for _, l := range describeGlobals() {
+				fmt.Fprintln(w, l)
+			}
+			w.Flush()
+			continue
+		}
+		if strings.HasPrefix(text, "% ") {
+			// option route (options.go): the API driven by option values
+			f := strings.Fields(text)
+			fmt.Fprintf(w, "BEGIN %d\n", n)
+			w.Flush()
+			res := []string{"BADLINE"}
+			if len(f) == 3 {
+				k, _ := strconv.Atoi(f[1])
+				js, _ := hex.DecodeString(f[2])
+				if k < 1 {
+					k = 1
+				}
+				res = runOptionCase(k, js)
+			}
+			fmt.Fprintf(w, "R %d %s\n", n, strings.Join(res, " "))
+			w.Flush()
+			n++
+			continue
+		}
 		reps := 1
 		moddir := ""
 		if strings.HasPrefix(text, "@ ") {
